@@ -8,6 +8,6 @@ for id in "$@"; do
     [ -f $p ] || continue
     grep -q "^#### $id $m " $log 2>/dev/null && continue
     echo "#### $id $m $(python3 -c "import json;print(json.load(open('$base/$id/out/$m/meta.json'))['summary'][:150])")" >> $log
-    /verif/tools/seedcheck.sh $p $id ${extra[$id]} >> $log 2>&1
+    ${VERIF_ROOT:-/verif}/tools/seedcheck.sh $p $id ${extra[$id]} >> $log 2>&1
   done
 done
